@@ -1,15 +1,49 @@
 # Check configuration: which harnesses decide which property, with the bounds per tier.
 TOK = "pkg/sql/tokenizer"
 
-def tokruns(prefix_asserts, quick, thorough):
+def tokruns(prefix_asserts, quick, thorough, generic=None):
     runs = []
     for h in quick:
         runs.append({"pkg": TOK, "harness": h, "tiers": ["quick"], "expect_asserts": prefix_asserts})
     for h in thorough:
         runs.append({"pkg": TOK, "harness": h, "tiers": ["thorough"], "expect_asserts": prefix_asserts, "thorough": {"timeout": 7200}})
+    if generic:
+        for r in runs:
+            r["generic"] = generic
+            r["budget_is_violation"] = "unwind" in generic
+    return runs
+
+PAR = "pkg/sql/parser"
+
+def parruns(harnesses_q, harnesses_t, asserts, generic=None, extra=None):
+    runs = []
+    for tier, hs in (("quick", harnesses_q), ("thorough", harnesses_t)):
+        for h in hs:
+            r = {"pkg": PAR, "harness": h, "tiers": [tier], "expect_asserts": asserts, "args": {"max-steps": 400000}, "thorough": {"timeout": 7200}}
+            if generic:
+                r["generic"] = generic
+                r["budget_is_violation"] = "unwind" in generic
+            else:
+                r["budget_judged_by"] = "C01"  # non-terminating paths are C01's verdict, not this property's
+            if extra:
+                r.update(extra)
+            runs.append(r)
     return runs
 
 CHECKS = {
+    "C01": {
+        "bounds": {"quick": "tokenizer: all byte strings <= 2 bytes (all values), <= 3 (lexical alphabet), <= 5 (comment alphabet); low-level parser: every token sequence of <= 2 symbolic tokens drawn from a 150-row lexeme table (statement/clause keywords, operators, literals, and rows no tokenizer produces: type-less, empty literal, mismatched literal, unknown type) at statement start and after SELECT / SELECT a FROM / SELECT a FROM t WHERE, with and without a trailing EOF, strict x dialect symbolic; accepted trees are serialised with AST.SQL",
+                   "thorough": "tokenizer <= 3 bytes all values / <= 4 lexical / <= 7 comment; parser <= 3 symbolic tokens in each context"},
+        "outside": "inputs longer than the bounds; formatting / extraction / scanning / linting entry points (covered at kernel strength by C06, C14-C17); the Go runtime; regex paths on symbolic text",
+        "assumptions": ["termination = every path stays inside the instruction and call-depth budget (unwinding assertion); exceeding it is reported as a candidate hang and replayed natively under a timeout"],
+        "runs": tokruns([], ["VxC04_All2", "VxC04_Lex3", "VxC04_Cmt5"], ["VxC04_All3", "VxC04_Lex4", "VxC04_Cmt7"], generic=["panic", "unwind"]) + parruns(["VxSoup_Start2", "VxSoup_Select2", "VxSoup_From2", "VxSoup_Where2"], ["VxSoup_Start3", "VxSoup_Select3", "VxSoup_From3", "VxSoup_Where3"], ["C01.value_or_error"], generic=["panic", "unwind"]),
+    },
+    "C13": {
+        "bounds": {"quick": "every failing path of the C01 runs (same bounds): tokenizer errors and low-level parser errors", "thorough": "same as C01 thorough"},
+        "outside": "wording of messages and hints; errors of the gosqlx wrappers (checked by C07 harness); reproducibility across Go map iteration order",
+        "assumptions": ["documented code families: E1xxx tokenizer, E2xxx parser"],
+        "runs": tokruns(["C13.tok_structured", "C13.tok_family"], ["VxC04_All2", "VxC04_Lex3"], ["VxC04_All3", "VxC04_Lex4"]) + parruns(["VxSoup_Start2", "VxSoup_Select2", "VxSoup_From2", "VxSoup_Where2"], ["VxSoup_Start3", "VxSoup_Select3", "VxSoup_From3", "VxSoup_Where3"], ["C13.structured", "C13.family"]),
+    },
     "C04": {
         "bounds": {"quick": "all byte strings of length <= 2 over all 256 byte values; length <= 3 over the 24-symbol lexical alphabet; length <= 5 over the comment alphabet {- / * \\n a space}",
                    "thorough": "length <= 3 over all byte values; length <= 4 over the lexical alphabet; length <= 7 over the comment alphabet"},
